@@ -6,7 +6,7 @@ use crate::sem::{self, SemCase, Side};
 use serde_json::json;
 
 pub fn cfg() -> GenCfg {
-    GenCfg { opt_stress: true, asm_menu: true, addr_low_byte: true, inline_permille: 200, ..GenCfg::default() }
+    GenCfg { opt_stress: true, asm_menu: true, addr_low_byte: true, hw: true, inline_permille: 200, ..GenCfg::default() }
 }
 
 pub fn check(case: &SemCase, st: &mut Stats, ex: &Excl) -> Result<(), String> {
